@@ -36,10 +36,18 @@ RULE = ("seeded generator of DESIGN 4.2 files (1..20 nodes, 0..22 messages stand
 
 def sizes(tier):
     # (class files, wild files)
-    return (110, 150) if tier == "quick" else (2500, 4000)
+    return (150, 200) if tier == "quick" else (2000, 3000)
 
 
 def run(res, replay=None):
+    """--replay <replays/C05-*.json>: the generator is deterministic in (seed, tier), so a replay re-runs the
+    run that produced the file (seed and tier are taken from it); the failing text itself is in the replay's
+    observation (text=s:<hex of the DBC file>) and can be fed to the harness with `verif_compile text <file>`."""
+    if replay:
+        import json
+        rp = json.load(open(replay))
+        res.seed = int(rp.get("seed", res.seed))
+        res.tier = rp.get("tier", res.tier)
     vlib.proof_stage(res)
     n_class, n_wild = sizes(res.tier)
     vlib.standard_run(
